@@ -13,7 +13,7 @@ import (
 // Small agreement rules (DESIGN.md §3 M, P, Q, S): M1 (C14), P1 (C07), P2 (C14), Q1–Q3 (C17), S1–S2 (C19).
 
 func init() {
-	registerEngine("MP", []string{"M1", "P1", "P2"}, runEngineMP)
+	registerEngine("MP", []string{"M1", "P1", "P2", "P3"}, runEngineMP)
 	registerEngine("Q", []string{"Q1", "Q2", "Q3", "Q4"}, runEngineQ)
 	registerEngine("S", []string{"S1", "S2", "S3", "S4", "S5"}, runEngineS)
 }
@@ -67,7 +67,130 @@ func identityForwards(p *Prog, c *PktClosure) (id, inj []*ssa.Call) {
 	return
 }
 
+// highWaterFields: fields that track "the newest / highest seen so far" of a stream of sequence numbers that can
+// arrive out of order. Taken from the properties' state tables (C04 ring head, C07 newest sent, C09 highest
+// acknowledged, C19 highest received).
+var highWaterFields = []string{
+	"pkg/report.senderStream.lastRTPSN",
+	"pkg/rtpfb.history.highestAcked",
+	"internal/rtpbuffer.RTPBuffer.highestAdded",
+	"pkg/stats.internalStats.inboundHighestSequenceNumber",
+	"fixtures/fx.p3Mark.GoodP3hi",
+	"fixtures/fx.p3Mark.BadP3hi",
+}
+
+// p3HighWater (rule P3): a high-water-mark field is never overwritten blindly. Every store to it outside the
+// constructors either stores a value computed from the field's previous value (max(old, x)), or is control dependent
+// on a test that reads the state of the same object (the comparison with the previous value, or the
+// first-packet / not-initialised test). A store that depends on neither lets an out-of-order packet move the mark
+// backwards.
+func p3HighWater(p *Prog, o *obls) {
+	for _, fk := range highWaterFields {
+		if p.Fixture != strings.HasPrefix(fk, "fixtures/") {
+			continue
+		}
+		owner := fk[:strings.LastIndex(fk, ".")]
+		n := 0
+		for _, fn := range p.Funcs {
+			if isOptionClosure(fn) || isConstructor(p, fn) {
+				continue
+			}
+			var pdom map[*ssa.BasicBlock]map[*ssa.BasicBlock]bool
+			instrsOf(fn, func(in ssa.Instruction) {
+				st, ok := in.(*ssa.Store)
+				if !ok {
+					return
+				}
+				fa, ok := st.Addr.(*ssa.FieldAddr)
+				if !ok || fieldKeyAddr(fa) != fk {
+					return
+				}
+				// a store into a freshly allocated object is initialisation
+				if al, ok := p.origin(addrRoot(fa)).(*ssa.Alloc); ok && al.Heap && len(fn.Params) > 0 && p.origin(addrRoot(fa)) != ssa.Value(fn.Params[0]) {
+					if _, spilled := cellAddr(addrRoot(fa)).(*ssa.Alloc); spilled && !isParamCell(p, al) {
+						return
+					}
+				}
+				n++
+				key := fmt.Sprintf("%s@%s", fk, funcKey(fn))
+				readsState := func(v ssa.Value) bool {
+					u, ok := v.(*ssa.UnOp)
+					if !ok || u.Op != token.MUL {
+						return false
+					}
+					f2, ok := u.X.(*ssa.FieldAddr)
+					return ok && strings.HasPrefix(fieldKeyAddr(f2), owner+".")
+				}
+				readsSelf := func(v ssa.Value) bool { return loadOfField(p, v, fk) }
+				if p.backwardReaches(st.Val, readsSelf) {
+					o.ok("P3", key, p.instrPos(st), "the stored value is computed from the field's previous value")
+					return
+				}
+				if pdom == nil {
+					pdom = postDominators(fn)
+				}
+				guarded := ""
+				for cb := range transitiveControlDeps(fn, pdom, st.Block()) {
+					c := ifCond(cb)
+					if c == nil {
+						continue
+					}
+					if p.backwardReaches(c, readsSelf) {
+						guarded = "a comparison with the field's previous value"
+						continue
+					}
+					// an initialisation branch: the test reads another state field of the object (started, count) and
+					// the branch that contains the store also sets that field
+					tested := map[string]bool{}
+					p.backwardReaches(c, func(v ssa.Value) bool {
+						if readsState(v) {
+							tested[fieldKeyAddr(v.(*ssa.UnOp).X.(*ssa.FieldAddr))] = true
+						}
+						return false
+					})
+					if len(tested) == 0 {
+						continue
+					}
+					for _, sc := range cb.Succs {
+						if len(sc.Preds) != 1 || !sc.Dominates(st.Block()) {
+							continue
+						}
+						instrsOf(fn, func(in2 ssa.Instruction) {
+							s2, ok := in2.(*ssa.Store)
+							if !ok || !sc.Dominates(s2.Block()) {
+								return
+							}
+							if f2, ok := s2.Addr.(*ssa.FieldAddr); ok && tested[fieldKeyAddr(f2)] && guarded == "" {
+								guarded = "the first-packet branch (the tested state field is set in the same branch)"
+							}
+						})
+					}
+				}
+				if guarded != "" {
+					o.ok("P3", key, p.instrPos(st), "the store is control dependent on "+guarded)
+				} else {
+					o.bad("P3", key, p.instrPos(st), "the high-water mark is overwritten without a comparison with its previous value and outside a first-packet branch: an out-of-order packet moves it backwards")
+				}
+			})
+		}
+		if n == 0 {
+			o.undecided("P3", fk, "-", "anchor unresolved: no store to the high-water-mark field outside constructors")
+		}
+	}
+}
+
+// isParamCell: the alloc is the cell a by-value parameter was spilled into.
+func isParamCell(p *Prog, al *ssa.Alloc) bool {
+	for _, st := range p.storesToCell(al) {
+		if _, ok := st.Val.(*ssa.Parameter); ok {
+			return true
+		}
+	}
+	return false
+}
+
 func runEngineMP(p *Prog, o *obls) {
+	p3HighWater(p, o)
 	// ---- M1 ----
 	for _, es := range encoderSpecs {
 		if p.Fixture != strings.HasPrefix(es.fn, "fixtures/") {
@@ -236,6 +359,27 @@ func runEngineMP(p *Prog, o *obls) {
 					}
 				}
 			}
+			// a test of the counter against zero ("is this the first packet?") must read the counter before this
+			// packet is counted: after the increment it can never be zero
+			instrsOf(fn, func(in ssa.Instruction) {
+				bo, ok := in.(*ssa.BinOp)
+				if !ok || (bo.Op != token.EQL && bo.Op != token.NEQ) || !isConstInt(bo.Y, 0) {
+					return
+				}
+				u, ok := bo.X.(*ssa.UnOp)
+				if !ok || u.Op != token.MUL {
+					return
+				}
+				fa, ok := u.X.(*ssa.FieldAddr)
+				if !ok || fieldKeyAddr(fa) != fld {
+					return
+				}
+				instrsOf(fn, func(in2 ssa.Instruction) {
+					if isSt(in2) && instrDominates(in2, u) {
+						problems = append(problems, fmt.Sprintf("%s is compared with 0 at %s after it was incremented at %s: the first-packet test can never be true", fld, p.instrPos(bo), p.instrPos(in2)))
+					}
+				})
+			})
 			instrsOf(fn, func(in ssa.Instruction) {
 				if !isSt(in) {
 					return
